@@ -71,7 +71,7 @@ def mutated_names(stmts):
     return out
 
 
-def havoc_value(eng, name, v, st):
+def havoc_value(eng, name, v, st, keep_shape=False):
     """a fresh value of the same shape-class as v"""
     if isinstance(v, bool) or isinstance(v, z3.BoolRef):
         return z3.Bool(fresh_name(name))
@@ -88,8 +88,8 @@ def havoc_value(eng, name, v, st):
             f = z3.Function(fresh_name(name), *([z3.IntSort()] * o.ndim + [sort]))
             shape = []
             for d, sdim in enumerate(o.shape):
-                if isinstance(sdim, int):
-                    shape.append(sdim)
+                if isinstance(sdim, int) or keep_shape:
+                    shape.append(sdim)      # a buffer that is only written into (never re-bound) keeps its shape
                 else:
                     n = z3.Int(fresh_name(name + '.n%d' % d))
                     st.assume(n >= 0)
@@ -157,6 +157,10 @@ def invariant_for(eng, s, it, st):
     if isinstance(it, calls.RangeV):
         lo, hi = it.lo, it.hi
         elem = lambda i: i
+    elif isinstance(it, calls.EnumV):
+        n = calls.length(eng, it.seq, st)
+        lo, hi = 0, n
+        elem = lambda i, it=it: (i, eng.getitem(it.seq, i, st_cur[0]))
     else:
         n = calls.length(eng, it, st)
         lo, hi = 0, n
@@ -177,7 +181,7 @@ def invariant_for(eng, s, it, st):
     st_h = st.fork()
     for nme in sorted(names | muts):
         if nme in st_h.env:
-            st_h.env[nme] = havoc_value(eng, nme, st_h.env[nme], st_h)
+            st_h.env[nme] = havoc_value(eng, nme, st_h.env[nme], st_h, keep_shape=(nme not in names))
     idx = z3.Int(fresh_name('idx%d' % k))
     st_h.env[idx_name] = idx
     st_h.assume(and_(le(lo, idx), le(idx, maxv(hi, lo))))
@@ -219,7 +223,12 @@ def run_ghosts(eng, k, st):
         eng.spec_funcs = dict(eng.inv_funcs)
         eng.ghost_mode = True
         try:
-            for v, _ in calls.call_lambda(eng, FnV('lambda', '<ghost>', lam.node, {}), [], st):
+            for v, st1 in calls.call_lambda(eng, FnV('lambda', '<ghost>', lam.node, {}), [], st):
+                if st1 is not st:
+                    # lemma applications made inside a spec helper live in the state it returned: keep their conclusions
+                    st.pc[:] = list(st1.pc)
+                    for oid, o in st1.heap.items():
+                        st.heap.setdefault(oid, o)
                 break
         finally:
             eng.spec_funcs, eng.ghost_mode = saved_funcs, saved_mode
